@@ -81,6 +81,18 @@ def mutations(t):
                 elif kind == "swap" and len(ops) >= 2 and fingerprint(ops[0]) != fingerprint(ops[1]):
                     n.operands = tuple([ops[1], ops[0]] + ops[2:])
                     out.append(("swap-operands", c, False))
+                if kind == "dup" and len(ops) >= 2:
+                    # one node OBJECT at two places of the tree (a transformer may reuse a node): content decides, not identity
+                    c2 = deep(t)
+                    n2 = list(gen.nodes(c2))[i]
+                    ops2 = list(n2.operands)
+                    n2.operands = tuple([ops2[0], ops2[0]] + ops2[2:])
+                    out.append(("first-operand-object-used-twice", c2, False))
+                    c3 = deep(t)
+                    n3 = list(gen.nodes(c3))[i]
+                    ops3 = list(n3.operands)
+                    n3.operands = tuple(ops3[:-1] + [ops3[0]])
+                    out.append(("first-operand-object-also-last", c3, False))
                 if kind == "swap" and len(ops) >= 2:
                     # the same nodes in the same reading order, bracketed differently: the operand after ops[j] moves to the end of the
                     # operation found at the right edge of ops[j] (and back)
@@ -91,7 +103,7 @@ def mutations(t):
                         inner = ops2[j]
                         while not isinstance(inner, T.BaseOperation) and inner.children:
                             inner = inner.children[-1]
-                        if isinstance(inner, T.BaseOperation):
+                        if isinstance(inner, T.BaseOperation) and not any(m is inner for m in gen.nodes(ops2[j + 1])):      # (no cycle when an object is shared)
                             inner.operands = tuple(list(inner.operands) + [ops2[j + 1]])
                             n2.operands = tuple(ops2[:j + 1] + ops2[j + 2:])
                             out.append(("regroup-absorb", c2, False))
@@ -132,6 +144,7 @@ def odd_trees():
         T.UnknownOperation(T.Boost(T.Group(T.UnknownOperation(w("a"), w("b"))), 2), T.Not(T.UnknownOperation(w("c"), w("d")))),
         T.AndOperation(w("a"), T.OrOperation(w("b"), w("c")), w("d")), T.AndOperation(w("a"), T.Group(T.OrOperation(w("b"), w("c"), w("d")))),
         T.OrOperation(T.AndOperation(T.Not(T.OrOperation(w("a"), w("b"))), w("c")), w("d")),
+        (lambda x: T.OrOperation(x, x))(w("x")), (lambda g: T.AndOperation(g, T.Not(g), w("y")))(T.Group(T.OrOperation(w("a"), w("b")))),
     ]
 
 
